@@ -1,0 +1,16 @@
+//go:build verif
+
+package shell
+
+// Machine-checked contracts for shell results (comment-only; compiled only with -tags verif).
+
+//@ props C01 C02 C09 C14
+
+//@ func (Results).Ok
+//@ ensures result == cmdsOk(r, len(r))
+//@ loop 0: invariant 0 <= $i && $i <= len(r) && cmdsOk(r, $i)
+//@ loop 0: decreases len(r) - $i
+
+// Runner: runs one command; may fail with an error; does not touch spok's cache or history.
+//@ iface Runner.Run
+//@ ensures err == nil ==> result.Cmd == cmd
